@@ -412,6 +412,37 @@ func (h *H) api(f []string) bool {
 	return true
 }
 
+// counter counts running actor goroutines (a WaitGroup must not be waited on with a timeout and then reused).
+type counter struct {
+	mu sync.Mutex
+	n  int
+}
+
+func (c *counter) Add(d int) {
+	c.mu.Lock()
+	c.n += d
+	c.mu.Unlock()
+}
+
+func (c *counter) Done() { c.Add(-1) }
+
+func (c *counter) Zero() bool {
+	c.mu.Lock()
+	defer c.mu.Unlock()
+	return c.n == 0
+}
+
+func (c *counter) WaitZero(max time.Duration) bool {
+	deadline := time.Now().Add(max)
+	for !c.Zero() {
+		if time.Now().After(deadline) {
+			return false
+		}
+		time.Sleep(100 * time.Microsecond)
+	}
+	return true
+}
+
 type wcall struct {
 	cancel context.CancelFunc
 	id     int
@@ -477,7 +508,7 @@ func exec(state bool) func(script []string, opt comp.Options) comp.Result {
 		unstable := false
 		var gates []hook.Gate
 		var wcalls []*wcall
-		var actors sync.WaitGroup
+		var actors counter
 		stepStart := time.Now()
 		var stepMu sync.Mutex
 		stop := make(chan struct{})
@@ -587,12 +618,7 @@ func exec(state bool) func(script []string, opt comp.Options) comp.Result {
 						h.tag("root-cancelled")
 					}
 				case "join":
-					done := make(chan struct{})
-					go func() { actors.Wait(); close(done) }()
-					select {
-					case <-done:
-					case <-time.After(100 * time.Millisecond):
-					}
+					actors.WaitZero(100 * time.Millisecond)
 				case "exit":
 					if len(f) < 3 {
 						return
@@ -730,8 +756,6 @@ func exec(state bool) func(script []string, opt comp.Options) comp.Result {
 			r.cancel()
 		}
 		h.mu.Unlock()
-		actorsDone := make(chan struct{})
-		go func() { actors.Wait(); close(actorsDone) }()
 		deadline := time.Now().Add(2 * time.Second)
 		clean := false
 		for time.Now().Before(deadline) {
@@ -744,12 +768,7 @@ func exec(state bool) func(script []string, opt comp.Options) comp.Result {
 			}
 			act := h.active
 			h.mu.Unlock()
-			adone := false
-			select {
-			case <-actorsDone:
-				adone = true
-			default:
-			}
+			adone := actors.Zero()
 			if act == 0 && adone {
 				clean = true
 				break
